@@ -18,6 +18,9 @@
 EXTENDS Naturals, FiniteSets, TLC
 
 CONSTANTS N, Apis, Modes, LossKinds,
+          Role,        \* "server" | "client": the role of the modelled transport.  accept() is the same code in both
+                       \* (a client gets forwarded-tcpip / x11 / agent channels through it), and so is the shutdown
+          WakeOnlyServer, \* the wake-up of accept() at the end of run() is made only `if self.server_mode` (must be refuted)
           FixAccept,   \* accept() tests `active` under the lock; shutdown notifies all, also after close()
           FixEvent,    \* Channel._event_pending does not clear the event of a closed channel
           EventTestOutside, \* (with FixEvent) the "closed?" test of _event_pending is made before Channel.lock is taken
@@ -168,7 +171,7 @@ SdChanEv == /\ tt = "sd_chanev" /\ tt' = "sd_notify"
             /\ UNCHANGED wvars
 (* lock.acquire(); server_accept_cv.notify(); lock.release() - one waiter in the pinned code *)
 SdNotify == /\ tt = "sd_notify" /\ tt' = "sd_sockclose"
-            /\ IF Omit = "notify" \/ cvwait = {} THEN UNCHANGED <<cvwait, cvnote>>
+            /\ IF Omit = "notify" \/ cvwait = {} \/ (WakeOnlyServer /\ Role = "client") THEN UNCHANGED <<cvwait, cvnote>>
                ELSE IF FixAccept THEN cvnote' = cvnote \cup cvwait /\ cvwait' = {}
                ELSE \E x \in cvwait : cvnote' = cvnote \cup {x} /\ cvwait' = cvwait \ {x}
             /\ UNCHANGED <<active, pclosed, sclosed, cl, loss, ch, completion, authev, svc, ocreg, ocev>>
@@ -382,7 +385,8 @@ FairSpec == Spec /\ WF_vars(TTStep) /\ WF_vars(CLStep) /\ \A w \in W : WF_vars(W
 Started(w) == wpc[w] \notin {"idle", "done"}
 Stuck(w) == ShutdownComplete /\ Started(w) /\ ~ENABLED WStep(w)
 
-TypeOK == /\ active \in BOOLEAN /\ pclosed \in BOOLEAN /\ sclosed \in BOOLEAN
+TypeOK == /\ Role \in {"server", "client"}
+          /\ active \in BOOLEAN /\ pclosed \in BOOLEAN /\ sclosed \in BOOLEAN
           /\ \E i \in 1..11 : TTOrder[i] = tt
           /\ \E i \in 1..8 : CLOrder[i] = cl
           /\ loss \in AllKinds \cup {"none"}
